@@ -199,7 +199,16 @@ class SyncIter(Iterable):
         if self._stopped is None:
             return
         self._stopped.set()
-        self._worker_thread.join()
+        q = self._q
+        worker = self._worker_thread
+        while worker.is_alive():
+            # The worker may be blocked in `q.put` on the full queue;
+            # make room until it has seen the stop flag and exited.
+            try:
+                q.get(timeout=0.01)
+            except queue.Empty:
+                pass
+        worker.join()
         self._stopped = None
 
     def __iter__(self):
